@@ -270,8 +270,12 @@ def sdt(f, rep):
             rep.analysed.update([b['def']] + I.calls_seen)
             subj = b['def'] + (('<%s>' % variant) if variant else ''); n += 1
             if I.tops: rep.undecided('O-scratch', subj, I.tops, b['sp']); continue
-            t = total(I, sv)
-            ok, w = equal(t, ZERO, [c for c, _ in I.st.facts])
+            sym.CTX = I.st.ranges          # (the byte sum names positions the way the evaluation did: same range facts)
+            try:
+                t = total(I, sv)
+                ok, w = equal(t, ZERO, [c for c, _ in I.st.facts])
+            finally:
+                sym.CTX = {}
             rep.ob('O-scratch', subj, ok, 'after Sdt::%s the image sums to %s (mod 256), not 0' % (name, show(t)), sp=b['sp'], detail={'sum': show(t), 'witness': w})
     # the sink adapter: every entry point the table overrides leaves an image that sums to zero (the ones it does not
     # override are the trait defaults, which reach the table through `byte` alone - C14 - so they preserve the invariant
